@@ -430,6 +430,25 @@ class Engine:
             return self.elementwise(lambda x, y: self.binop_scalar(op, x, y, st, numpy=True), a, b, st)
         if isinstance(ao, ListV) and isinstance(bo, ListV) and isinstance(op, ast.Add):
             return new_ref(st, ListV(ao.items + bo.items))
+        if isinstance(op, ast.Mult) and (isinstance(ao, ListV) or isinstance(bo, ListV)):
+            # [x] * n : n copies of the single element (n <= 0 gives the empty list)
+            lst, cnt = (ao, b) if isinstance(ao, ListV) else (bo, a)
+            if len(lst.items) == 1 and not isinstance(cnt, Ref):
+                cc = concrete(to_num(cnt))
+                if cc is not None:
+                    return new_ref(st, ListV(list(lst.items) * max(int(cc), 0)))
+                x = lst.items[0]
+                elem = 'obj'
+                if is_z3(x):
+                    elem = 'bool' if is_bool_like(x) else 'int' if is_int_like(x) else ('real' if is_real_like(x) else 'obj')
+                elif isinstance(x, bool):
+                    elem = 'bool'
+                elif isinstance(x, int):
+                    elem = 'int'
+                elif isinstance(x, float):
+                    elem = 'real'
+                return new_ref(st, SymListV(maxv(to_num(cnt), 0), lambda i, x=x: x, elem))
+            raise OutOfSubset('list repetition other than [x] * n')
         if isinstance(a, str) and isinstance(op, ast.Mod):
             return '<msg>'
         if isinstance(a, str) and isinstance(b, str) and isinstance(op, ast.Add):
@@ -906,6 +925,24 @@ class Engine:
             d = dict(o.items)
             d[idx] = v
             st.heap[base.oid] = DictV(d, o.origin)
+            return
+        if isinstance(o, (ListV, SymListV)) and isinstance(idx, SliceV):
+            # L[lo:hi] = R with len(R) == max(hi - lo, 0) (same-length replacement): cell i of the result is R[i - lo] inside the slice
+            if idx.step is not None:
+                raise OutOfSubset('slice assignment with a step')
+            n = len(o.items) if isinstance(o, ListV) else o.n
+            old_at = (lambda i, o=o: self.select(list(o.items), i)) if isinstance(o, ListV) else o.at
+            from . import calls as _calls
+            rlen = _calls.length(self, v, st)
+            lo = 0 if idx.lo is None else idx.lo
+            hi = n if idx.hi is None else idx.hi
+            for bnd in (lo, hi):
+                self.oblige('safe', 'slice-assign-bounds', st, and_(le(0, bnd), le(bnd, n)))      # negative / clipped bounds are outside the subset
+            self.oblige('safe', 'slice-assign-same-length', st, eq(rlen, maxv(sub(hi, lo), 0)))
+            rv = st.heap[v.oid] if isinstance(v, Ref) else None
+            r_at = (lambda i, rv=rv: self.select(list(rv.items), i)) if isinstance(rv, ListV) else rv.at
+            elem = o.elem if isinstance(o, SymListV) else (rv.elem if isinstance(rv, SymListV) else 'obj')
+            st.heap[base.oid] = SymListV(n, lambda i, lo=lo, hi=hi: ite(and_(le(lo, i), lt(i, hi)), r_at(sub(i, lo)), old_at(i)), elem, o.origin)
             return
         if isinstance(o, ListV):
             i = self.norm_index(idx, len(o.items), st)
